@@ -6,7 +6,9 @@ package main
 import (
 	"fmt"
 	"sort"
+	"strconv"
 	"strings"
+	"unicode/utf8"
 
 	"golang.org/x/mod/modfile"
 	"golang.org/x/mod/semver"
@@ -14,7 +16,7 @@ import (
 
 func init() {
 	register(&Prop{ID: "C02", Gen: genC02, Oracle: oracleC02,
-		Rule: "C20's generators (grammar-directed go.mod/go.work files with every layout feature, mutations, token soup, malformed streams, long lines) plus the formatter's own outputs fed back as inputs (format, reformat, parse with and without the stub fixer on Format(f.Syntax)); comment tails: comments the directive layer reads a value from (indirect / Deprecated / rationale) followed by trailing blanks, tabs or Unicode spaces before LF / CRLF / end of input, swept over every directive kind in line and block form and appended at random to generated files; non-trivial = parses to >= 2 statements or fails past the first token; distinct by op line"})
+		Rule: "C20's generators (grammar-directed go.mod/go.work files with every layout feature, mutations, token soup, malformed streams, long lines) plus the formatter's own outputs fed back as inputs (format, reformat, parse with and without the stub fixer on Format(f.Syntax)); comment tails: comments the directive layer reads a value from (indirect / Deprecated / rationale) followed by trailing blanks, tabs or Unicode spaces before LF / CRLF / end of input, swept over every directive kind in line and block form and appended at random to generated files; escape-spelled strings: a double-quoted argument (every string position of go.mod / go.work, line and block form, with a comment or a second quoted token behind it) whose value needs quotes and ends in backslashes / quote characters / backslash-letter / non-ASCII, spelled canonically, literally or with \\x \\u \\U octal escapes (last rune swept, every rune at random), alone and behind generated files; non-trivial = parses to >= 2 statements or fails past the first token; distinct by op line"})
 }
 
 func genC02(g *Gen, n int) {
@@ -47,9 +49,31 @@ func genC02(g *Gen, n int) {
 		k++
 		c20Emit(g, op+h, true, "comment-tail")
 	})
+	// escape-spelled strings: every third input of the sweep (3 and 5 are coprime to its dimensions 8
+	// spellings x 19 tails; the oracle runs the whole sweep), one op per input, rotating through the
+	// typed parsers (which rewrite the token), the lax parser and the formatter
+	k = 0
+	c02EscSweep(func(s string, work bool) {
+		if k++; k%3 != 0 && !thorough {
+			return
+		}
+		h := hx(s)
+		op := []string{"modfile.parse nofix ", "modfile.parse stub ", "modfile.parselax nofix ", "modfile.reformat ", "modfile.parse nofix "}[k%5]
+		if work && strings.HasPrefix(op, "modfile.parse") {
+			op = "modfile.parsework " + []string{"nofix ", "stub "}[k%2]
+		}
+		c20Emit(g, op+h, true, "escape-spelled")
+	})
 	for g.st.Ops < n {
 		if g.Chance(6) {
 			c20LeafOps(g) // AutoQuote / Quote / Unquote / TrimSpace … on their own
+			continue
+		}
+		if g.Chance(3) {
+			// the token of an escape-spelled string on its own (Unquote, then AutoQuote of the value)
+			v := g.Pick(c02EscStems) + g.Pick(c02EscTails)
+			g.Emit("modfile.unquote "+hx(c02Spell(v, func(j, n int) int { return g.Intn(c02EscKinds) })), true, "leaf-escape-spelled")
+			g.Emit("modfile.autoquote "+hx(v), true, "leaf-escape-spelled")
 			continue
 		}
 		s, tag := c02GenInput(g.Rand)
@@ -60,7 +84,7 @@ func genC02(g *Gen, n int) {
 			fix = "stub"
 		}
 		pop := "modfile.parse "
-		if base := strings.TrimSuffix(tag, "-blank-tails"); base == "gowork" || base != "gomod" && g.Chance(25) {
+		if base := strings.TrimSuffix(tag, "-blank-tails"); base == "gowork" || base == "escape-spelled-work" || base != "gomod" && base != "escape-spelled" && g.Chance(25) {
 			pop = "modfile.parsework "
 		}
 		switch g.Intn(4) {
@@ -425,11 +449,200 @@ func c02BlankTails(r *Rand, s string) string {
 
 // c02GenInput: C20's input families, a share of the well-formed ones with blank tails.
 func c02GenInput(r *Rand) (string, string) {
+	if r.Chance(6) {
+		if s, work := c02EscRandom(r); work {
+			return s, "escape-spelled-work"
+		} else {
+			return s, "escape-spelled"
+		}
+	}
 	s, tag := c20GenInput(r)
 	if (tag == "gomod" || tag == "gowork") && r.Chance(15) {
 		return c02BlankTails(r, s), tag + "-blank-tails"
 	}
 	return s, tag
+}
+
+// ---- input class "escape-spelled string": a double-quoted argument whose SPELLING in the input is not
+// the one the formatter writes back.
+//
+// Why it was missing: every quoted token of the grammar generator is strconv.Quote(value), i.e. already
+// the canonical spelling that parseString stores back into the line (AutoQuote(Unquote(tok))), so on the
+// generated files the token the lexer accepted in the input and the token it meets in the formatted text
+// were the SAME byte string, and no value ended in a backslash.  The round trip "accepted token ->
+// value -> re-quoted token -> lexer again" was therefore never exercised on a token the lexer had not
+// seen before.  The class: (position of a string argument: every directive kind of go.mod and go.work,
+// line and block form, with and without an end-of-line comment / a second quoted token behind it) x
+// (value = stem that keeps the value in need of quotes x tail: runs of backslashes, quote characters,
+// backslash-letter, …) x (spelling of the runes: canonical / \xNN / \xNN upper case / \uNNNN /
+// \UNNNNNNNN / octal / literal).  The sweep spells the LAST rune of the value in each way (rest
+// canonical) and one variant spells every rune; the random member spells every rune at random, also
+// behind a grammar-generated file.
+
+// c02EscStems: each one alone already makes the value need quotes (blank, quote character, bracket,
+// comment opener, tab), whatever the tail.
+var c02EscStems = []string{"C:/work dir/mods", "./my modules", "a b", "x(y)/z", "a//b", "a\"b", "example.com/with space", "./a`b", "q'r/s", "a\tb", ".\\w x", "[x,y]", "é ü/日本"}
+
+// c02EscTails: what the value ends in.
+var c02EscTails = []string{"\\", "\\\\", "\\\\\\", "\"", "\\\"", "\"\\", "\\n", "\\x5c", "'", "`", "\\ ", " \\", "/", "", "\x00", "\u00a0", "é", "\xff", "\U0001F600"}
+
+const c02EscKinds = 7
+
+// c02SpellRune appends one rune of a value (its bytes enc) in the given spelling; spellings that do
+// not exist for the rune fall back (invalid UTF-8 has no \u form, `"` `\` and newline no literal form).
+func c02SpellRune(b *strings.Builder, enc string, kind int) {
+	rn := []rune(enc)[0]
+	valid := !(rn == 0xfffd && len(enc) == 1)
+	switch {
+	case kind == 1:
+		for i := 0; i < len(enc); i++ {
+			fmt.Fprintf(b, "\\x%02x", enc[i])
+		}
+	case kind == 2:
+		for i := 0; i < len(enc); i++ {
+			fmt.Fprintf(b, "\\x%02X", enc[i])
+		}
+	case kind == 3 && valid && rn < 0x10000:
+		fmt.Fprintf(b, "\\u%04x", rn)
+	case (kind == 3 || kind == 4) && valid:
+		fmt.Fprintf(b, "\\U%08x", rn)
+	case kind == 5:
+		for i := 0; i < len(enc); i++ {
+			fmt.Fprintf(b, "\\%03o", enc[i])
+		}
+	case kind == 6 && valid && rn != '"' && rn != '\\' && rn != '\n':
+		b.WriteString(enc)
+	default:
+		q := strconv.Quote(enc)
+		b.WriteString(q[1 : len(q)-1])
+	}
+}
+
+// c02Spell: the double-quoted token for value v, rune i spelled in kind(i, n) (n = number of runes).
+func c02Spell(v string, kind func(i, n int) int) string {
+	var b strings.Builder
+	b.WriteByte('"')
+	n := 0
+	for range v {
+		n++
+	}
+	i := 0
+	for j, w := 0, 0; j < len(v); j += w {
+		_, w = utf8.DecodeRuneInString(v[j:])
+		c02SpellRune(&b, v[j:j+w], kind(i, n))
+		i++
+	}
+	b.WriteByte('"')
+	return b.String()
+}
+
+// c02EscTemplates: head + body, %S = the string token.  dir: the position wants a directory path (the
+// value gets a "./" in front unless it already is one by the documented rule's first alternatives).
+// The body alone is what the random member appends to a grammar-generated file (not if head is empty:
+// a second module directive is an error).
+var c02EscTemplates = []struct {
+	head, body string
+	work, dir  bool
+}{
+	{"", "module %S\n\ngo 1.21\n", false, false},
+	{"module example.com/m\n\ngo 1.21\n\n", "require %S v1.0.0\n", false, false},
+	{"module example.com/m\n\n", "require (\n\texample.com/a v1.0.0\n\t%S \"v1.2.3\" // indirect\n\texample.com/b v1.0.0\n)\n", false, false},
+	{"module example.com/m\n\n", "exclude %S v1.0.0\n", false, false},
+	{"module example.com/m\n\n", "replace %S => example.com/n v1.2.0\n", false, false},
+	{"module example.com/m\n\n", "replace (\n\t%S v1.0.0 => \"./local dir\"\n)\n", false, false},
+	{"module example.com/m\n\n", "replace example.com/a => %S\n", false, true},
+	{"module example.com/m\n\ngo 1.21\n\n", "tool %S\n\nrequire example.com/a v1.0.0 // indirect\n", false, false},
+	{"module example.com/m\n\n", "tool (\n\texample.com/t\n\t%S // the \"main\" tool\n)\n", false, false},
+	{"go 1.22\n\n", "use %S\n", true, false},
+	{"go 1.22\n\n", "use (\n\t./a\n\t%S // windows checkout\n\t./b\n)\n", true, false},
+	{"go 1.22\n\n", "use %S // \"quoted\" remark\n\nreplace example.com/m v1.0.0 => example.com/n v1.2.0\n", true, false},
+	{"go 1.22\n\nuse ./x\n\n", "replace example.com/m v1.0.0 => %S\n", true, true},
+	{"go 1.22\n\n", "replace %S => example.com/n v1.2.0\n", true, false},
+}
+
+func c02EscDir(v string) string {
+	if strings.HasPrefix(v, "./") || strings.HasPrefix(v, "../") || strings.HasPrefix(v, "/") {
+		return v
+	}
+	return "./" + v
+}
+
+// c02EscSweep calls f on template x tail x spelling (of the last rune; spelling c02EscKinds = every
+// rune in a spelling that cycles with its index); the stem rotates in the quick tier and is a full
+// dimension in the thorough tier.
+func c02EscSweep(f func(s string, work bool)) {
+	i := 0
+	for _, t := range c02EscTemplates {
+		for _, tail := range c02EscTails {
+			for k := 0; k <= c02EscKinds; k++ {
+				stems := []string{c02EscStems[i%len(c02EscStems)]}
+				if thorough {
+					stems = c02EscStems
+				}
+				i++
+				for _, stem := range stems {
+					v := stem + tail
+					if t.dir {
+						v = c02EscDir(v)
+					}
+					k := k
+					tok := c02Spell(v, func(j, n int) int {
+						switch {
+						case k == c02EscKinds:
+							return (j + n) % c02EscKinds
+						case j == n-1:
+							return k
+						}
+						return 0
+					})
+					f(t.head+strings.ReplaceAll(t.body, "%S", tok), t.work)
+				}
+			}
+		}
+	}
+}
+
+// c02EscRandom: the random member — a random value (stem or one of C20's atoms, plus a tail), every
+// rune in a random spelling (biased to canonical / literal so that the token stays readable), in a
+// template or in a line behind a grammar-generated file of the same kind.
+func c02EscRandom(r *Rand) (string, bool) {
+	t := c02EscTemplates[r.Intn(len(c02EscTemplates))]
+	var v string
+	switch r.Intn(4) {
+	case 0:
+		v = r.Pick(c20Paths)
+	case 1:
+		v = r.Pick(c20Dirs)
+	default:
+		v = r.Pick(c02EscStems)
+	}
+	v += r.Pick(c02EscTails)
+	if r.Chance(20) {
+		v += r.Pick(c02EscTails)
+	}
+	if t.dir {
+		v = c02EscDir(v)
+	}
+	pct := []int{10, 40, 100}[r.Intn(3)]
+	tok := c02Spell(v, func(j, n int) int {
+		if j == n-1 && r.Chance(70) || r.Chance(pct) {
+			return 1 + r.Intn(c02EscKinds-1)
+		}
+		return []int{0, 6}[r.Intn(2)]
+	})
+	body := strings.ReplaceAll(t.body, "%S", tok)
+	if t.head == "" || r.Chance(50) {
+		return t.head + body, t.work
+	}
+	kind := "mod"
+	if t.work {
+		kind = "work"
+	}
+	s := c20GenFile(r, kind)
+	if !strings.HasSuffix(s, "\n") {
+		s += "\n"
+	}
+	return s + body, t.work
 }
 
 func c02OracleInput(g *Gen, s, tag string) {
@@ -525,6 +738,7 @@ func oracleC02(g *Gen, n int) {
 		c02OracleInput(g, s, "boundary")
 	}
 	c02CommentTailSweep(func(s string, work bool) { c02OracleInput(g, s, "comment-tail") })
+	c02EscSweep(func(s string, work bool) { c02OracleInput(g, s, "escape-spelled") })
 	for i := 0; i < n; i++ {
 		s, tag := c02GenInput(g.Rand)
 		c02OracleInput(g, s, tag)
